@@ -1,7 +1,7 @@
 #!/usr/bin/env python3
 """Development tool: mechanical behaviour-preserving renamings (sa/renames.py), to measure false alarms / analysis errors.
 
-usage: rename_sweep.py KIND [-j N] [--only SUBSTR] [--keep]      (KIND = locals | params | params_private | private | attrs | all | swap_if | flip_cmp | ret_tmp | test_tmp | reshape)
+usage: rename_sweep.py KIND [-j N] [--only SUBSTR] [--keep]      (KIND = locals | params | params_private | private | attrs | all | swap_if | flip_cmp | ret_tmp | test_tmp | split_and | demorgan | reshape)
 Every registered quick check is run with --root <variant>; anything but silence (exit 0) is printed.
 """
 import os, shutil, subprocess, sys, tempfile, concurrent.futures as cf
